@@ -820,6 +820,8 @@ def _translate_map(prog, r):
     unknown = []
 
     class Tr(Flow):
+        split_return_ifexp = True
+
         def __init__(self):
             super().__init__()
             self.rets = []
